@@ -77,6 +77,9 @@ class Harness:
                 const = X.module_constant(relpath, name)
                 if const is not NotImplemented:
                     return const            # a module-level literal constant
+                nt = X.module_namedtuple(relpath, name)
+                if nt is not None:
+                    return nt               # a module-level `class X(NamedTuple)` record type (plain tuple with field names)
                 imp = X.module_imports(relpath).get(name)
                 if imp and imp[0].split('.')[0] in _SAFE_STDLIB:
                     import importlib
@@ -86,6 +89,9 @@ class Harness:
                     except Exception:
                         return NotImplemented
                 return NotImplemented
+            if isinstance(sub.ex.node, ast.ClassDef):
+                nt = X.module_namedtuple(relpath, name)
+                return nt if nt is not None else NotImplemented
             if not isinstance(sub.ex.node, ast.FunctionDef) or sub.ex.cls is not None:
                 return NotImplemented
             note = f'inlined helper {relpath}:{name} (no contract of its own)'
@@ -115,12 +121,20 @@ class Harness:
                         sub = harness.fn(relpath, f'{c}.{name}')
                     except Exception:
                         return None
-                    if not isinstance(sub.ex.node, ast.FunctionDef) or sub.ex.decorators:
+                    if not isinstance(sub.ex.node, ast.FunctionDef) or sub.ex.decorators not in ([], ['staticmethod'], ['classmethod']):
                         return None
                     note = f'inlined helper method {relpath}:{c}.{name} (not in the baseline, no contract of its own)'
                     if note not in harness.notes:
                         harness.notes.append(note)
                     inner = Closure(interp_, sub.ex.node, env, name)
+                    if sub.ex.decorators == ['staticmethod']:
+                        return lambda *a, **k: inner(*a, **k)
+                    if sub.ex.decorators == ['classmethod']:
+                        # reached through the class object (e.g. inside __new__) or through an instance: the first argument is
+                        # the class either way; `me` stands for it only when it is the class
+                        if getattr(me, 'kvc_is_class', False) or (hasattr(me, 'parts') and str(getattr(me, 'parts', [''])[0]) in ('cls', cls)):
+                            return lambda *a, **k: inner(me, *a, **k)
+                        return None
                     return lambda *a, **k: inner(me, *a, **k)
                 todo.extend(bases)
             if name.startswith('_') and not name.startswith('__') and _BASELINE.get(relpath, {}).get(cls) is not None:
